@@ -204,7 +204,8 @@ class Run:
         self.raise_mids = set()
         self.cb_pub = []          # publishes to issue from inside on_message: (size)
         self.nested = []          # publishes to issue from inside on_publish
-        c = VClient(CallbackAPIVersion.VERSION2, client_id="cid", protocol=mqtt.MQTTv311, clean_session=True)
+        c = VClient(CallbackAPIVersion.VERSION1 if case.get("api") == 1 else CallbackAPIVersion.VERSION2,
+                    client_id="cid", protocol=mqtt.MQTTv311, clean_session=True)
         c._rec = rec
         self.c = c
         c.suppress_exceptions = bool(case.get("suppress"))
@@ -245,7 +246,7 @@ class Run:
             return _WsNoHandshake(s, "h", 1883, False, "/mqtt", None)
         return s
 
-    def _on_publish(self, client, ud, mid, rc, props):
+    def _on_publish(self, client, ud, mid, *rest):
         self.rec.add("cbpub", mid)
         if self.nested:
             size = self.nested.pop(0)
@@ -798,6 +799,7 @@ def gen_size(rng, big):
 def gen_random(rng, mode, big=False, nops=None):
     ws = mode == "ws"
     case = {"mode": mode, "ext": rng.random() < 0.5, "onpub": rng.random() < 0.85, "suppress": rng.random() < 0.3,
+            "api": 1 if rng.random() < 0.4 else 2,        # callback API version: on_publish is called through two different branches
             "inflight": rng.choice([1, 2, 20])}
     if ws:
         case["keys"] = [[rng.randrange(256) for _ in range(4)] for _ in range(rng.choice([1, 3, 8]))]
